@@ -1,7 +1,7 @@
 //! C04 (tokio runtime): routing order.
 
 use humphrey::http::{Request, Response, StatusCode};
-use humphrey::krauss::wildcard_match;
+use hvcommon::routelab::glob_ref;
 use humphrey::stream::Stream;
 use humphrey::{App, SubApp};
 use hvcommon::args::Args;
@@ -95,7 +95,7 @@ pub fn main(args: &Args) {
                 if k < 1 {
                     r.sample(routelab::app_json(&m));
                 }
-                routelab::run_app_cases(&mut r, addr, &m, &mut rng, nreq, wildcard_match, "tokio", &["c04".to_string(), "--seed".into(), seed.to_string(), "--app".into(), k.to_string()]);
+                routelab::run_app_cases(&mut r, addr, &m, &mut rng, nreq, glob_ref, "tokio", &["c04".to_string(), "--seed".into(), seed.to_string(), "--app".into(), k.to_string()]);
             }
             cancel.cancel();
             if only.is_some() {
